@@ -3,6 +3,7 @@ import PV.C09.Spec
 import PV.C09.Lemmas
 import PV.Gen.C09TypedParsers
 import PV.Gen.C09ModeNames
+import PV.C09.LexShift   -- lexer model: PV.C09.lex_shift, lex_shift_of_fit (the `ShiftEnv.lex` hypothesis below, proved there)
 /-
   C09 — property theorems: "start offsets only translate positions; all entry points agree".
 
@@ -150,7 +151,7 @@ theorem parseFiltered_shift_partial (env : Env σ) (sh : Shift σ) (k : Nat) (h 
 theorem parseTokens_shift_partial (env : Env σ) (sh : Shift σ) (k : Nat) (h : ShiftEnv env sh k)
     (hm : MarkerIrrelevant env) (laws : ShiftLaws env.view sh) (ty : Ty) (hwf : ty.WF)
     (toks : List σ.T) (hne : StmtNonEmpty env ty toks) :
-    ty.parseTokens env (toks.map (sh.tok k)) = shiftRes k (shiftOut sh k) (ty.parseTokens env toks) := by
+    ty.parseTokens env (toks.map (sh.tok k)) = shiftRes k (Spec.shiftOut sh k) (ty.parseTokens env toks) := by
   have hp := fun m => parseFiltered_shift_partial env sh k h hm m toks
   cases ty with
   | typed p =>
@@ -171,7 +172,7 @@ theorem parseTokens_shift_partial (env : Env σ) (sh : Shift σ) (k : Nat) (h : 
           rcases hb : m.body with _ | ⟨s1, _ | ⟨s2, tl⟩⟩
           · exact absurd hb this
           · by_cases hk : env.view.stmtKind s1 = mi <;>
-              simp [Res.map, Res.bind, shiftRes, shiftMod, shiftOut, hb, hk, laws.stmtKind, laws.stmtStart, laws.stmtPayload]
+              simp [Res.map, Res.bind, shiftRes, shiftMod, Spec.shiftOut, hb, hk, laws.stmtKind, laws.stmtStart, laws.stmtPayload]
           · simp [Res.map, Res.bind, shiftRes, shiftMod, hb, laws.stmtStart]
         | _ => simp [Res.map, Res.bind, shiftRes, shiftMod]
       · simp [Res.map, Res.bind, shiftRes]
@@ -182,7 +183,7 @@ theorem parseTokens_shift_partial (env : Env σ) (sh : Shift σ) (k : Nat) (h : 
       · cases m with
         | expression m =>
           by_cases hk : env.view.exprKind m.body = mi <;>
-            simp [Res.map, Res.bind, shiftRes, shiftMod, shiftOut, hk, laws.exprKind, laws.exprStart, laws.exprPayload]
+            simp [Res.map, Res.bind, shiftRes, shiftMod, Spec.shiftOut, hk, laws.exprKind, laws.exprStart, laws.exprPayload]
         | _ => simp [Res.map, Res.bind, shiftRes, shiftMod]
       · simp [Res.map, Res.bind, shiftRes]
       · simp [Res.map, Res.bind, shiftRes]
@@ -198,7 +199,7 @@ theorem parseTokens_shift_partial (env : Env σ) (sh : Shift σ) (k : Nat) (h : 
         have := hne' m rfl
         rcases hb : m.body with _ | ⟨s1, _ | ⟨s2, tl⟩⟩
         · exact absurd hb this
-        · simp [Res.map, Res.bind, shiftRes, shiftMod, shiftOut, hb]
+        · simp [Res.map, Res.bind, shiftRes, shiftMod, Spec.shiftOut, hb]
         · simp [Res.map, Res.bind, shiftRes, shiftMod, hb, laws.stmtStart]
       | _ => simp [Res.map, Res.bind, shiftRes, shiftMod]
     · simp [Res.map, Res.bind, shiftRes]
@@ -210,7 +211,7 @@ theorem parseTokens_shift_partial (env : Env σ) (sh : Shift σ) (k : Nat) (h : 
     · cases m with
       | expression m =>
         rcases hn : env.view.nameId m.body with _ | i <;>
-          simp [Res.map, Res.bind, shiftRes, shiftMod, shiftOut, hn, laws.nameId, laws.exprStart]
+          simp [Res.map, Res.bind, shiftRes, shiftMod, Spec.shiftOut, hn, laws.nameId, laws.exprStart]
       | _ => simp [Res.map, Res.bind, shiftRes, shiftMod]
     · simp [Res.map, Res.bind, shiftRes]
     · simp [Res.map, Res.bind, shiftRes]
@@ -221,7 +222,7 @@ theorem parseTokens_shift_partial (env : Env σ) (sh : Shift σ) (k : Nat) (h : 
     · cases m with
       | expression m =>
         rcases hn : env.view.constValue m.body with _ | i <;>
-          simp [Res.map, Res.bind, shiftRes, shiftMod, shiftOut, hn, laws.constValue, laws.exprStart]
+          simp [Res.map, Res.bind, shiftRes, shiftMod, Spec.shiftOut, hn, laws.constValue, laws.exprStart]
       | _ => simp [Res.map, Res.bind, shiftRes, shiftMod]
     · simp [Res.map, Res.bind, shiftRes]
     · simp [Res.map, Res.bind, shiftRes]
@@ -230,7 +231,7 @@ theorem parseTokens_shift_partial (env : Env σ) (sh : Shift σ) (k : Nat) (h : 
       modExpressionTokens, modInteractiveTokens, hp]
     generalize parseFiltered env _ toks = top
     rcases top with (m | ⟨k, o⟩ | _)
-    · cases m <;> simp [Res.map, Res.bind, shiftRes, shiftMod, shiftOut]
+    · cases m <;> simp [Res.map, Res.bind, shiftRes, shiftMod, Spec.shiftOut]
     · simp [Res.map, Res.bind, shiftRes]
     · simp [Res.map, Res.bind, shiftRes]
 
@@ -239,7 +240,7 @@ theorem parseTokens_shift_partial (env : Env σ) (sh : Shift σ) (k : Nat) (h : 
 def entry_shift_full : Prop :=
   ∀ (σ : Sig) (env : Env σ) (sh : Shift σ) (k : Nat), ShiftEnv env sh k → ShiftLaws env.view sh →
     ∀ (ty : Ty), ty.WF → ∀ (src : σ.Src),
-      ty.parseStartsAt env src k = shiftRes k (shiftOut sh k) (ty.parseStartsAt env src 0)
+      ty.parseStartsAt env src k = shiftRes k (Spec.shiftOut sh k) (ty.parseStartsAt env src 0)
 
 /-- What holds of the code as it is: translation invariance of every `T::parse_starts_at`, PROVIDED the
     start marker's `0..0` range is not observable and (for the parsers going through `Stmt`) the text
@@ -247,7 +248,7 @@ def entry_shift_full : Prop :=
 theorem entry_shift_partial (env : Env σ) (sh : Shift σ) (k : Nat) (h : ShiftEnv env sh k)
     (hm : MarkerIrrelevant env) (laws : ShiftLaws env.view sh) (ty : Ty) (hwf : ty.WF) (src : σ.Src)
     (hne : StmtNonEmpty env ty (filterTrivia env (ty.lexStartsAt env src 0))) :
-    ty.parseStartsAt env src k = shiftRes k (shiftOut sh k) (ty.parseStartsAt env src 0) := by
+    ty.parseStartsAt env src k = shiftRes k (Spec.shiftOut sh k) (ty.parseStartsAt env src 0) := by
   unfold Ty.parseStartsAt
   have : ty.lexStartsAt env src k = (ty.lexStartsAt env src 0).map (sh.tok k) := h.lex _ _
   rw [this, filterTrivia_shift env sh k h]
